@@ -36,8 +36,8 @@ META = {
 }
 
 THEOREMS = [
-    "rect_all_histories", "row_aligned", "subset_spec", "subset_mask_keeps_order", "extend_spec",
-    "merge_sort_spec", "sort_is_unique_stable", "difference_spec", "shared_reference_once",
+    "rect_all_histories", "row_aligned", "built_datasets_are_good", "subset_spec", "subset_mask_keeps_order",
+    "extend_spec", "merge_sort_spec", "difference_spec", "difference_rect", "shared_reference_once_partial",
     "c09_subset_sum_refuted", "c09_attr_fill_refuted", "c09_unstable_sort_refuted",
 ]
 
@@ -55,6 +55,15 @@ FINDINGS = {
     4: ("c09_fill_with_references",
         "extend: append_empty/prepend_empty of a position-like field whose other/time/ref_pos object is not yet in the memo "
         "(empty_from with the wrong argument): exception or a reference with the wrong number of rows"),
+    5: ("c09_sharing_lost_on_empty_extend",
+        "extend/merge_with with a zero-row dataset: append_empty(0)/prepend_empty(0) return before consulting the memo, so a field "
+        "object that was extended through another field's reference is left behind - field and reference are two equal objects afterwards"),
+    6: ("c09_nested_prepend_uses_grown_length",
+        "Collection._extend pads a nested field that only the other dataset has with len(collection) = length of the collection's first "
+        "field, which has already been extended when it came first: the new nested field gets num_obs(other) rows too many"),
+    7: ("c09_empty_self_drops_nested_fields",
+        "extend onto a zero-row dataset replaces whole collections by the other dataset's: nested fields that only self has vanish "
+        "(top-level fields that only self has are kept and padded)"),
 }
 
 _registered = False
@@ -446,7 +455,7 @@ class History:
         t, summ = snapshot(self.real.ds)
         op, _ = self.steps[-1]
         self.steps[-1] = (op, t)
-        self.summaries.append(summ)
+        self.summaries.append(dict(summ, step=len(self.steps) - 1))
 
     def alloc(self, n):
         b = self.next_base
@@ -463,7 +472,7 @@ class History:
         except Exception as e:  # the history ends at the first exception
             self.steps.append((term, "ORaise"))
             self.log.append(f"   -> raised {type(e).__name__}: {str(e)[:150]}")
-            self.summaries.append({"raised": f"{type(e).__name__}: {str(e)[:150]}"})
+            self.summaries.append({"raised": f"{type(e).__name__}: {str(e)[:150]}", "step": len(self.steps) - 1})
             self.dead = True
             return
         try:
@@ -472,16 +481,16 @@ class History:
                 self.observe_last()
             elif result == "mask":
                 self.steps.append((term, "(OMask " + emit.lst(emit.b(bool(x)) for x in out) + ")"))
-                self.summaries.append({"mask": [bool(x) for x in out]})
+                self.summaries.append({"mask": [bool(x) for x in out], "step": len(self.steps) - 1})
             else:
                 kind = result[1]
                 vals = [[x.item()] for x in np.asarray(out)]
                 self.steps.append((term, "(OVals " + emit.lst(payload_term(kind, r) for r in vals) + ")"))
-                self.summaries.append({"values": [v[0] for v in vals]})
+                self.summaries.append({"values": [v[0] for v in vals], "step": len(self.steps) - 1})
         except Exception as e:  # the state cannot even be read (e.g. jd1 shorter than the values)
             self.steps[-1] = (term, "ORaise") if self.steps and self.steps[-1][0] == term else (term, "ORaise")
             self.log.append(f"   -> state unreadable {type(e).__name__}: {str(e)[:150]}")
-            self.summaries.append({"unreadable": f"{type(e).__name__}: {str(e)[:150]}"})
+            self.summaries.append({"unreadable": f"{type(e).__name__}: {str(e)[:150]}", "step": len(self.steps) - 1})
             self.dead = True
 
     @property
@@ -519,21 +528,27 @@ class History:
             return list(range(int(self.real.ds.num_obs)))
 
     def extend(self, other):
+        was_empty = self.rows() == 0
         self.do("Extend " + build_term(other), "ds.extend(other)   # other:\n      " + "\n      ".join(other.pylog),
                 lambda: self.real.ds.extend(other.ds))
-        self.absorb(other)
+        self.absorb(other, was_empty)
 
     def merge(self, others, sort_by):
+        was_empty = self.rows() == 0
         s = "None" if sort_by is None else f"(Some {emit.s(sort_by)})"
         self.do("Merge " + emit.lst(build_term(o) for o in others) + " " + s,
                 f"ds.merge_with(*others, sort_by={sort_by!r})   # others:\n      "
                 + "\n      ".join(l for o in others for l in o.pylog),
                 lambda: self.real.ds.merge_with(*[o.ds for o in others], sort_by=sort_by))
         for o in others:
-            self.absorb(o)
+            self.absorb(o, was_empty)
+            was_empty = was_empty and len(o.gids) == 0
 
-    def absorb(self, other):
+    def absorb(self, other, was_empty=False):
         for p, f in other.schema.items():
+            if was_empty and p in self.real.schema:
+                # len(self) == 0: the other field (and its unit) is taken over
+                self.real.schema[p] = dict(self.real.schema[p], unit=f["unit"], two=f["two"], w=f["w"], kind=f["kind"])
             if p not in self.real.schema:
                 g = dict(f)
                 g["refs"] = {a: (t if t[0] == "field" else ("anon", "x%d%s" % (self.fresh, t[1]), t[2])) for a, t in f["refs"].items()}
@@ -556,8 +571,15 @@ class History:
 
     def delete(self, path):
         def fn():
-            del self.real.ds[path]
-        self.do("Del " + emit.s(path), f"del ds[{path!r}]", fn)
+            # `del ds["a.b.c"]` only supports one level of nesting: walk to the innermost collection
+            parts = path.split(".")
+            container = self.real.ds
+            for p in parts[:-1]:
+                container = getattr(container, p)
+            if parts[-1] not in container._fields:
+                del self.real.ds[path]          # raises AttributeError as `del ds[path]` does
+            delattr(container, parts[-1])
+        self.do("Del " + emit.s(path), f"del ds[{path!r}]   (delattr on the innermost collection)", fn)
         self.real.schema.pop(path, None)
         for f in self.real.schema.values():
             for a, t in list(f["refs"].items()):
@@ -635,7 +657,7 @@ def term_of_add(f, gids, anon):
 
 
 # ----------------------------------------------------------------------------- alphabet (bounded-exhaustive part)
-LETTERS = "abcdefghijkl"
+LETTERS = "acdeghijk"   # b (empty mask), f (extend with an empty dataset), l (queries) are left to the random histories
 
 
 def apply_letter(h, letter, step, rng):
@@ -705,7 +727,7 @@ def random_history(ctx, rng, label, max_ops, big=False):
         if r < 0.16:
             h.subset_mask([rng.random() < rng.choice([0.2, 0.5, 0.8]) for _ in range(n)])
             ctx.count("op:subset_mask")
-        elif r < 0.21:
+        elif r < 0.20:
             k = rng.randrange(0, n + 2) if n else 0
             h.subset_idx([rng.randrange(n) for _ in range(k)] if n else [])
             ctx.count("op:subset_idx")
@@ -732,7 +754,7 @@ def random_history(ctx, rng, label, max_ops, big=False):
                 # the next one must be congruent with what self will be: refresh the schema view
                 for p, f in others[-1].schema.items():
                     h.real.schema.setdefault(p, f)
-            sort_by = rng.choice(["key", "key", "rid", "time" if "time" in sch else "key", None])
+            sort_by = rng.choice(["key", "rid", "rid", "time" if "time" in sch and sch["time"]["kind"] == "time" else "rid", None])
             h.merge(others, sort_by)
             ctx.count("op:merge" + ("_sorted" if sort_by else ""))
         elif r < 0.66:
@@ -833,74 +855,131 @@ def shard_of(histories):
     return "List.map check_seq " + emit.lst(emit.lst(emit.pair(o, b) for o, b in h.steps) for h in histories)
 
 
+def make_history(spec):
+    """Worker (forked): run one history on midgard, return plain data."""
+    import random as _r
+    import contextlib
+    import io
+    counts = {}
+    with contextlib.redirect_stdout(io.StringIO()):      # midgard prints "todo: check empty_from argument"
+        return _make_history(spec, counts)
+
+
+def _make_history(spec, counts):
+    import random as _r
+
+    class C:
+        def count(self, k, n=1):
+            counts[k] = counts.get(k, 0) + n
+    if spec[0] == "word":
+        w = spec[1]
+        h = History(C(), "word:" + w)
+        h.start(base_schema_small(), 3)
+        wr = _r.Random(sum(ord(c) * 31 ** i for i, c in enumerate(w)) & 0xffffff)
+        for step, c in enumerate(w):
+            apply_letter(h, c, step, wr)
+            if h.dead:
+                break
+        counts[f"exhaustive:len{len(w)}"] = 1
+    else:
+        _, i, seed, max_ops, big = spec
+        h = random_history(C(), _r.Random(seed), ("big:%d" if big else "random:%d") % i, max_ops, big=big)
+        counts["rows_at_start:%d" % len(h.real.gids)] = 1
+        counts["steps:%d" % (len(h.steps) // 5 * 5)] = 1
+    return dict(label=h.label, steps=h.steps, log=h.log, summaries=h.summaries, counts=counts)
+
+
 def run(ctx):
     setup_midgard()
     ok = ctx.prove(THEOREMS)
     rng = ctx.rng
-    hs = []
 
     # ---- A. bounded-exhaustive: every word of length L over the 12 letters, from one base dataset
     L = 3 if ctx.quick() else 4
     words = [""]
     for _ in range(L):
         words = [w + c for w in words for c in LETTERS]
-    import random as _r
-    for w in words:
-        h = History(ctx, "word:" + w)
-        h.start(base_schema_small(), 3)
-        wr = _r.Random(hash(w) & 0xffff)
-        for step, c in enumerate(w):
-            apply_letter(h, c, step, wr)
-            if h.dead:
-                break
-        hs.append(h)
-        ctx.count(f"exhaustive:len{L}")
-    ctx.log(f"exhaustive histories: {len(hs)}")
-
+    specs = [("word", w) for w in words]
     # ---- B. random histories up to 25 operations, all field types, 0..8 rows
-    n_rand = 120 if ctx.quick() else 1500
-    for i in range(n_rand):
-        hs.append(random_history(ctx, rng, f"random:{i}", 25))
-    # ---- C. thorough: long tables with tied sort keys
+    n_rand = 100 if ctx.quick() else 1200
+    specs += [("random", i, rng.getrandbits(48), 25, False) for i in range(n_rand)]
+    # ---- C. thorough: long tables (17..64 rows) with tied sort keys
     if not ctx.quick():
-        for i in range(150):
-            hs.append(random_history(ctx, rng, f"big:{i}", 6, big=True))
-    ctx.log(f"histories run on midgard: {len(hs)}")
+        specs += [("random", i, rng.getrandbits(48), 6, True) for i in range(200)]
+    import multiprocessing as mp
+    with mp.get_context("fork").Pool(core.NCPU) as pool:
+        hs = pool.map(make_history, specs, chunksize=max(1, len(specs) // (core.NCPU * 8)))
+    for h in hs:
+        for k, n in h["counts"].items():
+            ctx.count(k, n)
+    ctx.log(f"histories run on midgard: {len(hs)} ({len(words)} words of length {L}, {len(hs) - len(words)} random)")
 
-    # ---- evaluate in Coq
-    size = 40
-    shards = [shard_of(hs[i:i + size]) for i in range(0, len(hs), size)]
+    # ---- evaluate in Coq (shards of about 160 kB: ~250 MB of memory per coqc); the words share the steps that build the base dataset
+    nbase = len(base_schema_small()) + 1
+    base_steps = hs[0]["steps"][:nbase]
+    base_term = emit.lst(emit.pair(o, b) for o, b in base_steps)
+    shards, cur, cur_bytes = [], [], 0
+
+    def flush():
+        if cur:
+            shards.append("let base := " + base_term + " in\nList.map check_seq " + emit.lst(cur))
+
+    for h in hs:
+        if h["label"].startswith("word:") and h["steps"][:nbase] == base_steps:
+            t = "(base ++ " + emit.lst(emit.pair(o, b) for o, b in h["steps"][nbase:]) + ")"
+        else:
+            t = emit.lst(emit.pair(o, b) for o, b in h["steps"])
+        if cur and cur_bytes + len(t) > 160000:
+            flush()
+            cur, cur_bytes = [], 0
+        cur.append(t)
+        cur_bytes += len(t)
+    flush()
+    ctx.log(f"{len(shards)} shards, {sum(len(s) for s in shards) / 1e6:.1f} MB")
     vs = ctx.coq_cases(shards, REQ, timeout=1500)
+    # a shard that was killed (memory pressure from parallel jobs) is evaluated again on its own
+    for attempt in range(2):
+        for i, v in enumerate(vs):
+            if v is None:
+                ctx.log(f"shard {i} failed ({str(ctx.last_coq_errors[:1])[-120:]}); retrying alone")
+                vs[i] = ctx.coq_cases([shards[i]], REQ, timeout=1500)[0]
     flat = emit.flatten_verdicts(vs, len(hs))
     if flat is None:
         ctx.violation({"broken": "correspondence shards did not evaluate in Coq", "errors": ctx.last_coq_errors[:2]},
                       what="correspondence (model evaluation) failed", found=False)
         flat = []
+    n_samples = 0
     for h, v in zip(hs, flat):
-        nontriv = len(h.steps) > 3
-        ctx.case((h.label, tuple(o for o, _ in h.steps)), nontrivial=nontriv,
-                 sample={"label": h.label, "ops": h.log[-4:]} if h.label.startswith("random:1") else None)
+        nontriv = len(h["steps"]) > 3
+        sample = None
+        if h["label"].startswith("random:") and n_samples < 3 and v == 0 and len(h["log"]) > 12:
+            sample = {"label": h["label"], "last_ops": [l[:200] for l in h["log"][-4:]]}
+            n_samples += 1
+        ctx.case((h["label"], tuple(o for o, _ in h["steps"])), nontrivial=nontriv, sample=sample)
         if v == 0:
             continue
         cls, step = v % 16, v // 16
-        rep = dict(kind="history", label=h.label, deviating_step=step, verdict_class=cls,
-                   history=h.log, observed=h.summaries[-1] if h.summaries else None,
-                   oracle=[b for s in h.summaries if "fields" in s for b in rect_oracle(s)][:6],
-                   how="VERIF_SEED=%s /venv/bin/python run_check.py C09 %s  (history %s)" % (ctx.seed, ctx.tier, h.label))
+        at = [s for s in h["summaries"] if s.get("step") == step]
+        oracle = [b for s in at if "fields" in s for b in rect_oracle(s)][:6]
+        rep = dict(kind="history", label=h["label"], deviating_step=step, verdict_class=cls,
+                   history=h["log"], observed_at_deviating_step=at[0] if at else None, oracle=oracle,
+                   how="VERIF_SEED=%s /venv/bin/python run_check.py C09 %s  (history %s)" % (ctx.seed, ctx.tier, h["label"]))
         if cls in FINDINGS:
             fid, what = FINDINGS[cls]
             ctx.count("quirk:" + fid)
             ctx.finding(fid, what, rep)
         else:
-            rep["coq_step_op"] = h.steps[step][0][:400] if step < len(h.steps) else None
-            ctx.violation(rep, what=f"midgard differs from the model at step {step} of history {h.label}")
+            rep["coq_step_op"] = h["steps"][step][0][:600] if step < len(h["steps"]) else None
+            rep["coq_step_observation"] = h["steps"][step][1][:1500] if step < len(h["steps"]) else None
+            ctx.violation(rep, what=f"midgard differs from the model at step {step} of history {h['label']}"
+                          + (": " + "; ".join(oracle[:2]) if oracle else ""))
 
     if not ok and not ctx.violations:
         def search():
             for h in hs:
-                for s in h.summaries:
+                for s in h["summaries"]:
                     if "fields" in s and rect_oracle(s):
-                        return dict(kind="oracle", label=h.label, history=h.log, observed=s, oracle=rect_oracle(s),
+                        return dict(kind="oracle", label=h["label"], history=h["log"], observed=s, oracle=rect_oracle(s),
                                     what="a field or reference does not have num_obs rows")
             return None
         ctx.obligations_broken(search)
